@@ -182,6 +182,12 @@ def random_model(rng, n_objects=12, types=None, access=ACCESS, with_values=True,
             k = rng.randint(1, max_members)
             members = {0: VarM(index, 0, "Highest sub-index supported" if kind == "record" else "Number of entries",
                                R.UNSIGNED8, "ro" if rng.random() < 0.7 else "const", default=k)}
+            if kind == "record" and rng.random() < 0.12:
+                # a record the dictionary knows by index only (no sub-entry described at all): every sub-index is missing
+                obj = ObjM(kind, index, nm, {})
+                obj.array_style = "empty"
+                m.add(obj)
+                continue
             if kind == "record":
                 subs = sorted(rng.sample(range(1, 0x20), k))
                 for s in subs:
